@@ -941,6 +941,26 @@ fn cli_walk(m: &Model, ctx: &mut Ctx, f: &crate::model::FnInfo) {
                     ctx.violate("C20.cli", "module-files:other-file-taken", &f.file, line, &format!("the directory search of the CLI hands `{}` to the compiler as a source: it is no regular file named *.asn / *.asn1 — reading it fails (Is a directory) and the CLI exits with an error where the library, given the module files {:?}, succeeds", g, want));
                 }
             }
+            // between the walk and the call of the library nothing may leave `main` when sources were found: the statements up
+            // to the one that compiles are evaluated one by one (a local that cannot be evaluated is bound to an opaque value)
+            for st in f.block.stmts.iter().skip(pos + 1) {
+                if tok(st).contains(".compile()") {
+                    break;
+                }
+                let one = syn::Block { brace_token: f.block.brace_token, stmts: vec![st.clone()] };
+                match ev.eval_block(&one, &mut env) {
+                    Ok(Val::Ctor(n, p, _)) if n == "$return" => {
+                        ctx.violate("C20.cli", "module-files:exits-before-compiling", &f.file, span_line(st), &format!("with {} module file(s) found, `main` returns {} before the library is called: the CLI fails where the library, given the same files, compiles them", got.len(), p.first().map(|v| v.show()).unwrap_or_default()));
+                        return;
+                    }
+                    Ok(_) => {}
+                    Err(_) => {
+                        if let syn::Stmt::Local(l) = st {
+                            env.insert(tok(&l.pat).trim_start_matches("mut ").to_string(), Val::Opaque("local".into()));
+                        }
+                    }
+                }
+            }
             let order: Vec<&String> = got.iter().filter(|g| want.contains(&g.as_str())).collect();
             if order.len() == want.len() && order.iter().zip(want.iter()).any(|(a, b)| a.as_str() != *b) {
                 ctx.violate("C20.cli", "walk:order", &f.file, line, &format!("the sources are handed on as {:?}, not in walk order {:?}", got, want));
